@@ -51,7 +51,7 @@ RECURSIVE Pow2(_)
 Pow2(n) == IF n = 0 THEN 1 ELSE 2 * Pow2(n - 1)
 
 \* two's complement bitwise on (possibly negative) 32-bit values, via ~x = -x-1
-NotI(a) == -a - 1
+NotI(a) == IF a >= 0 THEN -a - 1 ELSE -(a + 1)      \* (no intermediate leaves the 32-bit range)
 AndI(a, b) == IF a >= 0 /\ b >= 0 THEN a & b
               ELSE IF a < 0 /\ b >= 0 THEN b - (b & NotI(a))
               ELSE IF a >= 0 /\ b < 0 THEN a - (a & NotI(b))
@@ -119,11 +119,14 @@ ArithV(op, a0, b0) ==
     ELSE CASE op = "+" -> Fit(IF AddOvf(a.v, b.v) THEN 0 ELSE a.v + b.v, t, AddOvf(a.v, b.v))
            [] op = "-" -> Fit(IF SubOvf(a.v, b.v) THEN 0 ELSE a.v - b.v, t, SubOvf(a.v, b.v))
            [] op = "*" -> Fit(IF MulOvf(a.v, b.v) THEN 0 ELSE a.v * b.v, t, MulOvf(a.v, b.v))
+           \* (-2^31 cannot be negated in the 32-bit evaluator: those divisions are left to the wide evaluator)
            [] op = "/" -> IF b.v = 0 THEN UB
                           ELSE IF a.v = MINI /\ b.v = -1 THEN (IF t = "int" THEN UB ELSE Wide)
+                          ELSE IF a.v = MINI \/ b.v = MINI THEN Wide
                           ELSE Ok(TDiv(a.v, b.v), t)
            [] op = "%" -> IF b.v = 0 THEN UB
                           ELSE IF a.v = MINI /\ b.v = -1 THEN (IF t = "int" THEN UB ELSE Ok(0, t))
+                          ELSE IF a.v = MINI \/ b.v = MINI THEN Wide
                           ELSE Ok(TMod(a.v, b.v), t)
            [] op = "&" -> Ok(AndI(a.v, b.v), t)
            [] op = "|" -> Ok(OrI(a.v, b.v), t)
